@@ -69,6 +69,19 @@ def copy_tree(src, dst):
             shutil.copy2(s, d)
 
 
+def mark_known(ctx):
+    """the development suites (seeded changes, refactors, fixtures, matrix, mutants) look at what a change ADDS: an instance recorded
+    as a known finding of the unchanged library (exact key) is not a report about the change"""
+    try:
+        import json as _json
+        kk = {f['key'] for f in _json.load(open(os.path.join(VERIF, 'known_findings.json')))['findings'] if f.get('status') == 'known'}
+    except Exception:
+        kk = set()
+    for i in ctx.instances:
+        if i.verdict == 'violation' and i.key in kk:
+            i.verdict = 'known-finding'
+
+
 def run_rules_on(root, rule_modules=None, floor_scale=None):
     from mirlib import extract
     from program import Program
@@ -80,6 +93,7 @@ def run_rules_on(root, rule_modules=None, floor_scale=None):
         ctx.floor_scale = floor_scale
     for name in catalog.RULE_MODULES:
         importlib.import_module('rules.' + name).run(ctx)
+    mark_known(ctx)
     return ctx
 
 
@@ -127,7 +141,13 @@ def good_fixture(_):
         root = os.path.join(tmp, 'fx')
         copy_tree(os.path.join(VERIF, 'fixtures', 'base'), root)
         ctx = run_rules_on(root, floor_scale=1.0)       # the reference is held to the full floors
-        v = [i.key for i in ctx.instances if i.verdict == 'violation']
+        # the frozen base is a copy of the library: a recorded known finding (exact key) is in it too
+        try:
+            import json as _json
+            kk = {f['key'] for f in _json.load(open(os.path.join(VERIF, 'known_findings.json')))['findings'] if f.get('status') == 'known'}
+        except Exception:
+            kk = set()
+        v = [i.key for i in ctx.instances if i.verdict == 'violation' and i.key not in kk]
         import catalog
         short = []
         for pid, spec in sorted(catalog.PROPS.items()):
